@@ -1,4 +1,6 @@
 """Replay of GroupMachine behaviours into the pose / quaternion / twist classes (C01 C02 C04 C06)."""
+import operator
+
 import numpy as np
 
 import gamma
@@ -14,24 +16,33 @@ def classes_for(h):
     return CLASSES3 + (CLASSES2 if gamma.is_planar(h) else [])
 
 
-def apply(cname, X, call, sigma):
-    """perform one GroupMachine action on object X; returns the new object (or None if n/a)"""
+def _clone(X):
+    Y = type(X)()
+    Y.data = [np.array(a, copy=True) for a in X.data]
+    return Y
+
+
+def apply(cname, X, call, sigma, aug=False):
+    """perform one GroupMachine action on object X; returns the new object (or None if n/a).
+    aug: write X * G, X / G, X ** n in their augmented form (x *= g ...) on a private copy of X - the same
+    transition of the specification reached through the other entry point (__imul__, __itruediv__, __ipow__)"""
     op = call["op"]
+    aug = aug and cname not in NO_POW          # augmented arithmetic is documented for poses and quaternions only
     if op == "inv":
         return X.inv()
     if op == "pow":
         if cname in NO_POW:
             return None
-        return X ** call["n"]
+        return operator.ipow(_clone(X), call["n"]) if aug else X ** call["n"]
     G = gamma.build(cname, call["g"], sigma)
     if op == "mulr":
-        return X * G
+        return operator.imul(_clone(X), G) if aug else X * G
     if op == "mull":
         return G * X
     if op == "divr":
         if cname in NO_POW:
             return X * G.inv()
-        return X / G
+        return operator.itruediv(_clone(X), G) if aug else X / G
     raise ValueError(op)
 
 
